@@ -15,7 +15,7 @@ func init() {
 	commands["C11"] = runC11
 }
 
-var dgramClasses = []string{"valid", "short", "empty", "long", "wrong-serial", "serial-0", "wrong-function", "wrong-id", "id-0x19", "malformed-field"}
+var dgramClasses = []string{"valid", "short", "empty", "long", "wrong-serial", "serial-0", "wrong-function", "wrong-id", "id-0x19", "malformed-field", "event-shaped"}
 
 func makeDgram(r *Rand, class string, oc OpCase, id uint32) []byte {
 	base := genReply(r, oc.Resp, id, 0, nil)
@@ -35,6 +35,8 @@ func makeDgram(r *Rand, class string, oc OpCase, id uint32) []byte {
 		base[1] ^= byte(1 + r.Intn(255))
 	case "wrong-id":
 		base[0] = []byte{0x18, 0x16, 0x00, 0xff}[r.Intn(4)]
+	case "event-shaped": // what a v6.62 controller's event looks like: protocol id 0x19 AND function code 0x20
+		base[0], base[1] = 0x19, 0x20
 	case "id-0x19":
 		base[0] = 0x19
 	case "malformed-field":
